@@ -56,6 +56,27 @@ MODULES = [
         dict(name='R-closure-spec:id', pat='.unwrap_or_else(|x| x)', rep='.unwrap_or_else(|x: usize| -> (r: usize) ensures r == x { x })'),
         dict(name='R-transmute', kind='re', pat=r"let (k|v): &'static _ = unsafe \{ mem::transmute\((k|v)\) \};", rep=r"let \1: &'static [u8] = crate::vstubs::extend_lifetime(\2);", count=2),
     ]),
+    dict(name='reader', file='reader/mod.rs', header=HDR_IO, rewrites=[
+        dict(name='R-mods', pat='mod prefix_iter;\nmod range_iter;\nmod reader_cursor;\n', rep=''),
+        dict(name='R-closure-spec:new', pat='.map(|metadata| Reader { metadata, reader })', rep='.map(|metadata: Metadata| -> (r: Reader<R>) ensures r.metadata == metadata && r.reader == reader { Reader { metadata, reader } })'),
+    ]),
+    dict(name='reader::reader_cursor', file='reader/reader_cursor.rs', header=HDR_IO, rewrites=[]),
+    dict(name='reader::range_iter', file='reader/range_iter.rs', header=HDR_IO, rewrites=[
+        dict(name='R-derive:Clone', pat='#[derive(Clone)]\npub struct R', rep='pub struct R', count=2),
+        # R-guard-if: Verus does not end the first reborrow when its bindings are only used in a match guard;
+        # `P if g => X, P2 => Y` (P2 the same pattern without guard) becomes `P2 => if g { X } else { Y }`
+        dict(name='R-guard-if:fwd', kind='re', pat=r'Some\(\(key, _\)\) if key == start => self\.cursor\.move_on_next\(\)\?,\n\s*Some\(\(key, val\)\) => Some\(\(key, val\)\),',
+             rep='Some((key, val)) => { if key == start { self.cursor.move_on_next()? } else { Some((key, val)) } }'),
+        dict(name='R-guard-if:rev', kind='re', pat=r'Some\(\(key, _\)\) if key == end => self\.cursor\.move_on_prev\(\)\?,\n\s*Some\(\(key, val\)\) => Some\(\(key, val\)\),',
+             rep='Some((key, val)) => { if key == end { self.cursor.move_on_prev()? } else { Some((key, val)) } }'),
+    ]),
+    dict(name='reader::prefix_iter', file='reader/prefix_iter.rs', header=HDR_IO, rewrites=[
+        # R-mutparam: inside loops Verus evaluates a function postcondition that names a `mut` by-value parameter on the
+        # parameter's current value; `fn f(mut x: T) { B }` becomes `fn f(x0: T) { let mut x = x0; B }`
+        dict(name='R-mutparam:advance_key', pat='fn advance_key(mut bytes: Vec<u8>) -> Option<Vec<u8>> {', rep='fn advance_key(bytes0: Vec<u8>) -> Option<Vec<u8>> { let mut bytes = bytes0;'),
+        dict(name='R-guard-if:prefix', kind='re', pat=r'Some\(\(k, _\)\) if k == next_prefix => cursor\.move_on_prev\(\),\n(\s*)_otherwise => Ok\(cursor\.current\(\)\),',
+             rep=r'Some((k, _)) => { if k == next_prefix { cursor.move_on_prev() } else { Ok(cursor.current()) } }\n\1None => Ok(cursor.current()),'),
+    ]),
     dict(name='varint', file='varint.rs', header=HDR, rewrites=[]),
     dict(name='block_writer', file='block_writer.rs', header=HDR, rewrites=[
         dict(name='R-assert-diverge', kind='assert_diverge', count='+'),
